@@ -222,6 +222,41 @@ def check(run):
                     else:
                         run.ok('D2', st)
 
+    # ---- D2 (continued): the absent forms of Maybe ^Cell / HashmapE take one bit and no reference
+    for r in range(0, 5):
+        for op in ('store_maybe_ref', 'store_dict'):
+            for fill in (7, 1022, 1023):
+                it = Interp(prog)
+                b = filled(it, fill, r)
+                try:
+                    call(it, b, op, K(None))
+                    ok = True
+                except RaiseEx as e:
+                    ok, exc = False, e
+                run.evaluations += 1
+                fits = fill + 1 <= 1023
+                st = f'{op}(None)[r={r},fill={fill}]'
+                if not ok and fits:
+                    run.fail('D2', f'Builder.{op}', f'{st}: refused ({exc}) although one bit and no reference is needed and {1023 - fill} bit(s) are free', wb, witness=dict(r=r, fill=fill))
+                elif ok and not fits:
+                    run.fail('D2', f'Builder.{op}', f'{st}: accepted, builder now holds {nbits(it, b)} bits', wb, witness=dict(r=r, fill=fill))
+                elif ok and (nrefs(it, b) != r or nbits(it, b) != fill + 1):
+                    run.fail('D2', f'Builder.{op}', f'{st}: builder holds {nrefs(it, b)} refs / {nbits(it, b)} bits, expected {r} / {fill + 1}', wb)
+                else:
+                    run.ok('D2', st)
+    # a present Maybe ^Cell needs one bit as well as one reference
+    for r in range(0, 4):
+        it = Interp(prog)
+        b = filled(it, 1023, r)
+        try:
+            call(it, b, 'store_maybe_ref', cm.leaf(it, 1, 'k'))
+            ok = True
+        except RaiseEx:
+            ok = False
+        run.evaluations += 1
+        run.check(not ok or nbits(it, b) <= 1023, 'D2', 'Builder.store_maybe_ref' if ok and nbits(it, b) > 1023 else f'store_maybe_ref(present)[r={r},fill=1023]',
+                  'refused: no bit left for the presence flag' if not ok else f'accepted with {nbits(it, b)} bits', wb)
+
     # ---- D3 value ranges
     ws = prog.where(prog.method('Builder', 'store_uint'))
     for n in range(1, 258):
